@@ -236,7 +236,15 @@ fn judge(pool: &mut Pool, out: &mut Out, line: &str, class: &str, session: bool)
     if r.kind.starts_with("panic:") || r.kind.starts_with("render-panic:") || r.kind == "render-error" {
         out.oracle_fail(&panic_key(&r, &input), line, &format!("{} on input `{}`: {}", r.kind, short(&input), short(&r.detail)));
     } else if r.kind == "hang" {
-        out.oracle_fail(&format!("hang:{}", line.split(' ').take(2).collect::<Vec<_>>().join(" ")), line, &format!("no result within the time limit on input `{}`", short(&input)));
+        // key of a hang: the construct that can cause it, else the first words of the input
+        let has_wide_spec = {
+            let b: Vec<char> = input.chars().collect();
+            (0..b.len()).any(|i| b[i] == ':' && (i + 1..b.len()).take_while(|j| b[*j].is_ascii_digit() || b[*j] == '.').count() >= 6)
+        };
+        let key = if has_wide_spec { "hang:format-spec-width".to_string() }
+            else if input.contains("base(") { "hang:base-nonfinite".to_string() }
+            else { format!("hang:{}", line.split(' ').take(2).collect::<Vec<_>>().join(" ")) };
+        out.oracle_fail(&key, line, &format!("no result within the time limit on input `{}`", short(&input)));
     }
     // model stream: factorial with n operators
     if let Some(rest) = line.strip_prefix("rep ") {
